@@ -334,36 +334,39 @@ fn gen_c09(seed: u64, _index: u64, tier: Tier) -> ServerPlan {
         );
         q.header.recursion_desired = r.chance(0.5);
         what = format!("query {qname} {}", show_qtype(q.questions[0].qtype));
-        match r.below(12) {
-            0 => {
-                q.header.is_response = true;
-                what = format!("response-flagged {what}");
+        // header and question oddities, each on its own (so that they also combine:
+        // a response-flagged message with a non-standard opcode, several questions
+        // of an unknown class, ...)
+        if r.chance(0.1) {
+            q.header.is_response = true;
+            what = format!("response-flagged {what}");
+        }
+        if r.chance(0.1) {
+            q.header.opcode = Opcode::from(*r.pick(&[1u8, 2, 5, 15]));
+            what = format!("opcode {:?} {what}", q.header.opcode);
+        }
+        if r.chance(0.08) {
+            let n = r.range(0, 3);
+            let extra = q.questions[0].clone();
+            q.questions.clear();
+            for _ in 0..n {
+                q.questions.push(extra.clone());
             }
-            1 => {
-                q.header.opcode = Opcode::from(*r.pick(&[1u8, 2, 5, 15]));
-                what = format!("opcode {:?} {what}", q.header.opcode);
+            what = format!("{n} questions {what}");
+        }
+        if !q.questions.is_empty() && r.chance(0.08) {
+            let c = QueryClass::from(*r.pick(&[3u16, 4, 255, 999]));
+            for qq in &mut q.questions {
+                qq.qclass = c;
             }
-            2 => {
-                let n = r.range(0, 3);
-                let extra = q.questions[0].clone();
-                q.questions.clear();
-                for _ in 0..n {
-                    q.questions.push(extra.clone());
-                }
-                what = format!("{n} questions");
-            }
-            3 => {
-                q.questions[0].qclass = QueryClass::from(*r.pick(&[3u16, 4, 255, 999]));
-                what = format!("class {:?} {what}", q.questions[0].qclass);
-            }
-            4 => {
-                q.header.is_authoritative = r.chance(0.5);
-                q.header.is_truncated = r.chance(0.5);
-                q.header.recursion_available = r.chance(0.5);
-                q.header.rcode = Rcode::from(r.below(16) as u8);
-                what = format!("odd flags {what}");
-            }
-            _ => {}
+            what = format!("class {c:?} {what}");
+        }
+        if r.chance(0.08) {
+            q.header.is_authoritative = r.chance(0.5);
+            q.header.is_truncated = r.chance(0.5);
+            q.header.recursion_available = r.chance(0.5);
+            q.header.rcode = Rcode::from(r.below(16) as u8);
+            what = format!("odd flags {what}");
         }
         let mut bytes = q.to_octets().map(|b| b.to_vec()).unwrap_or_default();
         match r.below(14) {
